@@ -33,7 +33,10 @@ impl Sim {
             Step::Commit { r, t, spill_fault, per_addr } => self.step_commit(*r, *t, *spill_fault, *per_addr),
             Step::Abandon { r, t } => self.step_abandon(*r, *t),
             Step::Craft { r, t, items } => self.step_craft(*r, *t, items),
-            Step::Hello { a, b } => self.step_hello(*a, *b),
+            Step::Hello { a, b, fault } => self.step_hello(*a, *b, fault.as_ref()),
+            Step::Subscribe { a, b, sid, fault } => self.step_subscribe(*a, *b, *sid, fault),
+            Step::Unsubscribe { a, b, fault } => self.step_unsubscribe(*a, *b, fault),
+            Step::Push { b, a, sid, buf, fault, mode } => self.step_push(*b, *a, *sid, *buf, fault, *mode),
             Step::SessOpen { r } => self.step_sess_open(*r),
             Step::SessAct { r, s, cmds, fail_at } => self.step_sess_act(*r, *s, cmds, *fail_at),
             Step::SessRecv { r, s, from_r, from_s, m, garble } => self.step_sess_recv(*r, *s, *from_r, *from_s, *m, *garble),
